@@ -251,6 +251,17 @@ impl<'a, 'ast> Visit<'ast> for Auto<'a> {
             let r = self.src.range(&m.method);
             self.push(r, "vx_to_le_bytes", "R5-le");
         }
+        if (m.method == "map_err" || m.method == "map") && m.args.len() == 1 {
+            // R16: enum-variant constructor used as a function value -> eta-expanded closure
+            if let syn::Expr::Path(pp) = &m.args[0] {
+                let last = pp.path.segments.last().map(|s| s.ident.to_string()).unwrap_or_default();
+                if pp.path.segments.len() >= 2 && last.chars().next().map(|c| c.is_uppercase()).unwrap_or(false) {
+                    let r = self.src.range(&m.args[0]);
+                    self.edits.push(Edit { start: r.0, end: r.0, text: "|vx_e| ".into(), rule: "R16-eta", label: None, prio: -2 });
+                    self.edits.push(Edit { start: r.1, end: r.1, text: "(vx_e)".into(), rule: "R16-eta", label: None, prio: -2 });
+                }
+            }
+        }
         for (name, f, is_mut) in self.method_rewrites.clone() {
             if m.method == name.as_str() {
                 let rr = self.src.range(&*m.receiver);
@@ -614,7 +625,8 @@ fn fn_edits(src: &Src, take: &Take, sig: &syn::Signature, block: &syn::Block, fn
                 if let syn::ReturnType::Type(_, ty) = &sig.output {
                     let r = src.range(&**ty);
                     let name = take.ret.clone().unwrap_or_else(|| "r".to_string());
-                    edits.push(Edit { start: r.0, end: r.1, text: format!("({}: {})", name, src.slice(r)), rule: "R3-ret", label: None, prio: 0 });
+                    edits.push(Edit { start: r.0, end: r.0, text: format!("({}: ", name), rule: "R3-ret", label: None, prio: -1 });
+                    edits.push(Edit { start: r.1, end: r.1, text: ")".to_string(), rule: "R3-ret", label: None, prio: -1 });
                 }
                 let mut t = String::from("\n");
                 // keep labels: one Edit per labelled chunk so the map knows the clause label
